@@ -48,8 +48,8 @@ def r_iter_readitems(F, R):
                     if not good:
                         bad_range.append(show(nd))
                 if nd[0] == "call" and nd[1] == ("slice", "iter") and nd[2] and nd[2][0][0] == "place" and \
-                        nd[2][0][3][-2:] == ("v:Err", "f:0"):
-                    ok_owned = True
+                        len(nd[2][0][3]) >= 2 and nd[2][0][3][-2].startswith("v:") and nd[2][0][3][-1] == "f:0":
+                    ok_owned = True  # the owned representation (Err on the pinned tree, any variant of a private either-type)
         if not ok_range and not bad_range and not ok_owned:
             R.undecided_site("R-ITER", b.label(), "iterator construction not recognised: %s" % [show(t)[:100] for t in alts])
         else:
@@ -111,6 +111,19 @@ def r_iter_readitems(F, R):
                         t[2][0][2][0][2][0][3][-2].startswith("v:") and t[2][0][2][0][2][0][3][-1] == "f:0":
                     arms.add("Err")
                     variants_seen["Err"] = t[2][0][2][0][2][0][3][-2]
+                elif t[0] == "agg" and t[1] == "Option::Some" and t[2][0][0] == "call" and t[2][0][1] == ("Region", "index") and \
+                        len(t[2][0][2]) == 2:
+                    # the inner iterator's `next` written out in the wrapper: both halves of one zip
+                    # element of the region-backed representation
+                    col, idx = t[2][0][2]
+                    same_zip = col[0] == "call" and idx[0] == "call" and col[1] == idx[1] == ("Iterator", "next") and \
+                        col[2] == idx[2] and col[3] == ("v:Some", "f:0", "f:1") and idx[3] == ("v:Some", "f:0", "f:0")
+                    src = col[2][0] if same_zip and col[2] else None
+                    if same_zip and src is not None and src[0] == "place" and any(x.startswith("v:") for x in src[3]):
+                        arms.add("Ok")
+                        variants_seen["Ok"] = [x for x in src[3] if x.startswith("v:")][-1]
+                    else:
+                        bad.append(show(t)[:100])
                 else:
                     bad.append(show(t)[:100])
             if len(variants_seen) == 2 and variants_seen["Ok"] == variants_seen["Err"]:
